@@ -390,25 +390,44 @@ func checkCapacity(c *CapacityCase) *Outcome {
 		}
 		var callable yae.Callable
 		var cerr error
+		t0 := time.Now()
 		if p := run.Guard(func() { callable, cerr = e.Compile(src, nil) }); p != nil {
 			return bad("Compile panicked instead of returning an error: %s (%s)", p.Text, desc)
 		}
+		compileTime := time.Since(t0)
 		if cerr != nil {
 			continue
 		}
 		accepted = true
+		// evaluation needs at most one step per emitted instruction: it cannot take longer than
+		// compiling did by more than a small factor. The allowance is relative to the compile time
+		// measured just before, so that a loaded machine does not turn slowness into a verdict.
+		allow := 20 * compileTime
+		if allow < 30*time.Second {
+			allow = 30 * time.Second
+		}
 		for i := 0; i < 2; i++ {
-			var v *val.Val
-			var err error
-			t0 := time.Now()
-			if p := run.Guard(func() { v, err = callable(nil) }); p != nil {
-				return bad("the Callable panicked instead of returning an error: %s (%s)", p.Text, desc)
+			type res struct {
+				v   *val.Val
+				err error
+				p   *run.Panic
 			}
-			if err == nil && v == nil {
-				return bad("the Callable returned neither a value nor an error (%s)", desc)
-			}
-			if d := time.Since(t0); d > 30*time.Second {
-				return bad("not prompt: evaluating the compiled expression took %s (%s)", d, desc)
+			done := make(chan res, 1)
+			go func() {
+				var r res
+				r.p = run.Guard(func() { r.v, r.err = callable(nil) })
+				done <- r
+			}()
+			select {
+			case r := <-done:
+				if r.p != nil {
+					return bad("the Callable panicked instead of returning an error: %s (%s)", r.p.Text, desc)
+				}
+				if r.err == nil && r.v == nil {
+					return bad("the Callable returned neither a value nor an error (%s)", desc)
+				}
+			case <-time.After(allow):
+				return bad("the Callable did not return within %s (compiling the same source took %s): the host is blocked (%s)", allow, compileTime.Round(time.Millisecond), desc)
 			}
 		}
 	}
